@@ -160,7 +160,8 @@ CHECKS = {
         technique="stateless DFS over goroutine schedules x crash points x fault answers (deviation-bounded) of the real full stack inside synctest bubbles, with restart on the same durable fakes",
         text="The real MetaCDC with real channel manager, readers, writer, batcher and etcd stores runs over in-memory source logs, downstream and store; every crash point before/after each visible step (downstream acknowledgement, checkpoint write), every single write/store failure and a manual pause are placed at every position of every schedule within the deviation bound; a new incarnation restarts from the persisted state; the event log is checked for checkpoints that run ahead of acknowledgements, gaps, changed dropped checkpoints and rows never delivered.",
         note="Bounds: <= 2 collections x <= 2 shards, scripts <= 6 packs, batch sizes 1..3, one crash and one fault per execution (two thorough), deviation bound 1 (2 thorough). Source seek semantics are fakemq's model of MqTtMsgStream.Seek; 'latest' = everything delivered so far.",
-        parts=[part("resume", "server", ".", "TestVerifC05Resume", shards=(16, 16), budget=(150, 1200), gomaxprocs=1)],
+        parts=[part("resume", "server", ".", "TestVerifC05Resume", shards=(16, 16), budget=(150, 1200), gomaxprocs=1),
+               part("mq-conformance", "core", "verifkit/fakemq", "TestVerifMqConformance", shards=(12, 16), budget=(150, 900))],
     ),
     "C06": dict(
         level="fault_enumeration", engine="sched",
